@@ -15,7 +15,7 @@ RULE = ('unique-label cut molecules (atomistic last level) and cut coarse graphs
         'resolve_all() of the k-level string == resolve_all() of the two-level string == ground truth; in resolve_iter() the '
         'coarse graph of step i+1 IS the fine graph of step i, and the bonds (order, descriptor pair) and node names a step handed out '
         'are still the same after the resolver has moved on; the C02/C03 post-state contract holds at every step; repeated '
-        'resolve(), resolve_iter() and resolve_all() on three fresh resolvers give identical canonical dumps. 15 % of the cases '
+        'resolve(), resolve_iter() and resolve_all() on three fresh resolvers give identical canonical dumps. 30 % of the cases '
         'are polymer-style inputs (non-unique descriptors, "." bonds, multipliers, both conventions) written one level down '
         'inside a single coarse fragment "{[#SYS]}.{#SYS=...}.{units}": same final molecule as the flattened string. '
         'distinct = (feature set, levels, #heavy, #fragments); non-trivial = at least 3 levels.')
@@ -36,7 +36,7 @@ def cases(seed, tier, shard, nshards):
     rng = random.Random(f'{seed}:C06:{tier}:{shard}')
     made = 0
     while made < SIZES[tier] // nshards:
-        if rng.random() < 0.15:
+        if rng.random() < 0.3:
             a = ambig.random_case(rng)
             if a is None:
                 continue
